@@ -282,6 +282,17 @@ def add_special_loci(ds, rng, chrom="chrS", length=40000, clusters=True):
                 for i in range(cnt):
                     ds.read_from_exons("pt_%s_%d" % (nm, i), chrom, ex, flag=16, polyt=30)
         pos += 3600
+    # unspliced reads in un-annotated sequence (intergenic: never uniquely assigned), one per tail combination: the strand
+    # comes from `get_assignment_strand`'s tail test alone -- polyA only '+', polyT only '-', BOTH tails '.', none '.';
+    # under reflection a polyA tail becomes a polyT head, so the both-tails read must stay '.' in both orientations
+    for i, (pa, pt, nm) in enumerate([(30, 30, "both"), (30, 0, "polya"), (0, 30, "polyt"), (0, 0, "none")]):
+        a = pos + 1400 * i
+        if a + 500 + 100 >= length:
+            break
+        ex = [(a, a + 399 + 7 * i)]
+        _put(ds, chrom, ex[0][0] - 2, "GCGCG")
+        _put(ds, chrom, ex[0][1] - 2, "GCGCG")
+        ds.read_from_exons("mono_%s" % nm, chrom, ex, flag=0, polya=pa, polyt=pt)
     return ds
 
 
